@@ -83,10 +83,10 @@ def roundtrip_sheet(sheet, what):
     with Prefs(**LOSSLESS):
         with lib('serialise'):
             t1 = sheet.cssText
-            p1 = drop_empty(P.p_sheet(sheet))
+            p1 = drop_empty(P.p_sheet(sheet, resolved=True))
         with lib('reparse'):
             s2 = parser().parseString(t1, href=sheet.href)
-            p2 = drop_empty(P.p_sheet(s2))
+            p2 = drop_empty(P.p_sheet(s2, resolved=True))
             t2 = s2.cssText
         if p1 != p2:
             raise Violation('sheet:reparse-differs:' + diff_kind(p1, p2), f'{what}: {t1[:300]!r}: {P.first_diff(p1, p2)}')
